@@ -31,7 +31,7 @@ def jobs(tier):
 
     def J(name, target, contract, **kw):
         out.append(Job('idl.' + name, target, tus=TUS, contract=contract, defines=d, callee_contracts={LST: C_LST}, replace=[LST], unwind=N * N + 2, model_unwind=N * N + 2, spec_headers=SPEC,
-                       exceptions=True, caps=CAPS, abstract_fields=ABS, harness_pre=HPRE, force_types=FORCE, timeout=2400, mem_gb=24,
+                       exceptions=True, caps=CAPS, abstract_fields=ABS, harness_pre=HPRE, force_types=FORCE, timeout=2400, mem_gb=24, mem_est=4,
                        bounded='%d time points (matrix %dx%d), one symbolic open level (depth by induction), no value listeners registered' % (N, N, N), **kw))
 
     base = [FRESH, '__exc == 0', 'spu_inv(self)', 'self->listening.n == 0']
@@ -152,7 +152,7 @@ def lra_jobs(out, tier):
 
     def J(name, target, contract, **kw):
         out.append(Job('lra.' + name, target, tus=TUS_L, contract=contract, defines=d, unwind=6, model_unwind=8, spec_headers=['arith_spec.h', 'lra_undo_spec.h'],
-                       callee_contracts=stubs, replace=list(stubs), exceptions=True, caps=CAPS_L, abstract_fields=ABS_L, harness_pre=HPRE_L, timeout=2400, mem_gb=24,
+                       callee_contracts=stubs, replace=list(stubs), exceptions=True, caps=CAPS_L, abstract_fields=ABS_L, harness_pre=HPRE_L, timeout=2400, mem_gb=24, mem_est=4,
                        force_types=['std::vector<unsigned short>'],
                        bounded='2 arithmetic variables (4 bounds), one symbolic open level, bound values small canonical rationals with infinitesimal part in -1..1; '
                                'assertion/row::propagate_* and update are abstracted (assumed not to touch the bounds or the undo log)', **kw))
